@@ -236,7 +236,12 @@ def genops(kind, seed, *args):
     r = subprocess.run([WVM, "genops", kind, str(seed)] + [str(a) for a in args], capture_output=True, text=True, timeout=3600)
     if r.returncode != 0:
         raise RuntimeError("genops failed: " + r.stderr[-300:])
-    return [l for l in r.stdout.splitlines() if l]
+    lines = [l for l in r.stdout.splitlines() if l]
+    bad = [l for l in lines if l.startswith("canonbad ")]
+    if bad:
+        # the SPEC's FEN printer and the canonical text of Proofs/FenFaithful disagree: our own machinery is inconsistent
+        raise RuntimeError("genops: FEN text is not the canonical text of its position: " + bad[0][:200])
+    return lines
 
 
 # ---------------------------------------------------------------- canonical projections
